@@ -606,8 +606,25 @@ func c12KeyValidation(c *C) {
 	r := c.R
 	bad := []string{"", "a b", "a-b", "a.b", "'illegal", "ä", "a\n", " a", "a ", "1+1", "a/b", "a{", "\x00", "a|b", "a\"", "{{x}}", "x y z", "a,b", "-", "é1", "a\tb"}
 	good := []string{"a", "A", "_", "_a", "a1", "1a", "123", "snake_case", "CamelCase", "a_1_B", "x", "__", "pongo2x"}
-	set, _ := newSet(emptySetFiles)
-	tpl, err := set.FromString("ok{% macro mm() export %}m{% endmacro %}{% macro local() %}l{% endmacro %}")
+	// the template that exports the macro is executed stand-alone, or it is a child / grandchild template of an
+	// inheritance chain (whose base exports nothing of that name)
+	set, _ := newSet(map[string]string{
+		"/base.tpl":  "{% block b %}base{% endblock %}",
+		"/child.tpl": "{% extends \"/base.tpl\" %}{% macro mm() export %}m{% endmacro %}{% macro local() %}l{% endmacro %}{% block b %}ok{% endblock %}",
+		"/mid.tpl":   "{% extends \"/base.tpl\" %}{% block b %}mid{% endblock %}",
+		"/leaf.tpl":  "{% extends \"/mid.tpl\" %}{% macro mm() export %}m{% endmacro %}{% block b %}ok{% endblock %}",
+	})
+	var tpl *pongo2.Template
+	var err error
+	shape := r.Intn(3)
+	switch shape {
+	case 0:
+		tpl, err = set.FromString("ok{% macro mm() export %}m{% endmacro %}{% macro local() %}l{% endmacro %}")
+	case 1:
+		tpl, err = set.FromFile("/child.tpl")
+	default:
+		tpl, err = set.FromFile("/leaf.tpl")
+	}
 	if err != nil {
 		c.Fail("setup", D{"error": err.Error()})
 		return
@@ -634,7 +651,7 @@ func c12KeyValidation(c *C) {
 		out, xerr := c01Exec(tpl, ctx, r.Intn(4))
 		c.Eval(1)
 		if wantRefused && xerr == nil {
-			c.Fail("invalid-key-accepted", D{"context_keys": fmt.Sprintf("%q", keysOf(ctx)), "why": why, "output": out})
+			c.Fail("invalid-key-accepted", D{"context_keys": fmt.Sprintf("%q", keysOf(ctx)), "why": why, "output": out, "template": []string{"stand-alone template exporting mm", "child template exporting mm", "grandchild template exporting mm"}[shape]})
 			return
 		}
 		if !wantRefused && (xerr != nil || out != "ok") {
